@@ -21,7 +21,7 @@ ASSUMPTIONS = [
 ]
 BUDGET = {
     "quick": {"examples": 350, "workers": 8, "time_cap": 70},
-    "thorough": {"examples": 12000, "workers": 14, "time_cap": 1500},
+    "thorough": {"examples": 12000, "workers": 14, "time_cap": 900},
 }
 
 
